@@ -189,7 +189,37 @@ func (c *Ctx) watchdog(stop chan struct{}) {
 		case strings.HasPrefix(class, "deadlock"):
 			verdict = class
 		case strings.HasPrefix(class, "spin") && cpu >= stall*8/10:
-			verdict = fmt.Sprintf("%s; process used %v CPU without progress", class, cpu.Round(time.Second))
+			// A busy process is not yet a spinning goroutine (garbage collection under memory
+			// pressure, an overloaded machine): the same kektordb function must be found
+			// executing in three dumps taken a few seconds apart.
+			same := map[string]int{}
+			for _, f := range frames {
+				same[f] = 1
+			}
+			for round := 0; round < 2; round++ {
+				time.Sleep(3 * time.Second)
+				_, fr := ClassifyDump(DumpGoroutines())
+				seen := map[string]bool{}
+				for _, f := range fr {
+					seen[f] = true
+				}
+				for f := range same {
+					if seen[f] {
+						same[f]++
+					}
+				}
+			}
+			var stuck []string
+			for f, n := range same {
+				if n == 3 {
+					stuck = append(stuck, f)
+				}
+			}
+			if len(stuck) > 0 && c.progress.Load() == last {
+				sort.Strings(stuck)
+				frames = stuck
+				verdict = fmt.Sprintf("%s; process used %v CPU without progress", class, cpu.Round(time.Second))
+			}
 		}
 		if verdict == "" && idle < giveUp {
 			continue // starved or slow: keep waiting
